@@ -117,13 +117,18 @@ def _bounds_forms():
     return out
 
 
-def panic_role(msg):
+def panic_role(msg, expression=""):
+    import re as _re
     if msg is None:
         return "abort"
     if msg.startswith("overflow determining"):
         return "overflow-near-word-size"
     if "failed to compile glob" in msg:
-        return "regex-compile-rejected"
+        # the known finding is about repetition bounds the regex back end refuses (beyond its
+        # limits); a rejected pattern without such a bound is something else
+        if _re.search(r"[:,]\d{4,}", expression) or expression.count("<") >= 3:
+            return "regex-compile-rejected"
+        return "regex-rejects-generated-pattern"
     if "unreachable" in msg:
         return "unreachable-range-operation"
     return "panic-other"
@@ -159,7 +164,7 @@ def replay_range_totality(items):
     seen = set()
     for e, row in zip(exprs, rows):
         if row and (row.get("panic") or row.get("abort")):
-            role = panic_role(row.get("msg"))
+            role = panic_role(row.get("msg"), e)
             sig = (role, row.get("loc"))
             if sig in seen:
                 continue
@@ -241,7 +246,7 @@ def _entry_battery():
             if rooted:
                 if it["root_raw"] != "":
                     problems.append("root segment of a rooted glob is not empty")
-                if it["depth"] not in (n, n + 1):
+                if it["depth"] != n + 1:      # Path::components counts the root directory
                     problems.append("rooted-entry-depth")
             else:
                 want = base.replace("{ROOT}", row["tmp"]).rstrip("/")
@@ -380,7 +385,7 @@ def replay_escape(items):
     import itertools
     from core import probe
     meta = "?*$:<>()[]{},"
-    alphabet = list(meta) + ["/", "-", "a", ".", " ", "\u91d1", "\U0001F600", "\u00e9"]
+    alphabet = list(meta) + ["/", "-", "!", "^", "&", "~", "#", "|", "+", "a", ".", " ", "\u91d1", "\U0001F600", "\u00e9"]
     strs = ["".join(t) for k in (1, 2) for t in itertools.product(alphabet, repeat=k) if "//" not in "".join(t)]
     rows = probe([{"op": "esc", "raw": x} for x in strs])
     out = []
@@ -425,8 +430,12 @@ def replay_negation_walks(items):
     return out
 
 
-ERR_TREE = ["b/", "b/a/", "b/a/x", "b/c", "b/d/", "b/d/e"]
-ERR_LINKS = [["b/a/loop", "{ROOT}/b"], ["b/d/dangling", "{ROOT}/nowhere"]]
+ERR_DIRS = ["a0", "zz1", "m2", "b3", "y4", "k5", "c6", "x7"]
+ERR_TREE = ["b/"] + ["b/%s/" % d for d in ERR_DIRS] + ["b/%s/%s" % (d, n) for d, n in zip(ERR_DIRS, "fzagqbwm")] + ["b/c"]
+# one broken link per directory, with names sorting before / after the file's name, so that in
+# some directory the link is read first whatever the directory order is
+ERR_LINKS = ([["b/%s/%s" % (d, n), "{ROOT}/b"] for d, n in zip(ERR_DIRS[:4], ["loop", "a-loop", "zloop", "0loop"])] +
+             [["b/%s/%s" % (d, n), "{ROOT}/nowhere"] for d, n in zip(ERR_DIRS[4:], ["dangling", "a-dangling", "zd", "0d"])])
 
 
 def replay_walk_errors(items):
@@ -434,7 +443,7 @@ def replay_walk_errors(items):
     place; the remaining entries unaffected; errors pass through combinator stacks unchanged."""
     from core import probe
     stacks = [[], [{"filter": {"tree": [], "file": []}}], [{"not": {"pats": ["zzz"], "mode": "any_text"}}],
-              [{"filter": {"tree": [], "file": ["c"]}}, {"not": {"pats": ["d/e"], "mode": "any_text"}}]]
+              [{"filter": {"tree": [], "file": ["c"]}}, {"not": {"pats": ["nothing/e"], "mode": "any_text"}}]]
     cmds = [{"op": "walk", "tree": ERR_TREE, "links": ERR_LINKS, "base": "b", "glob": None, "stack": st,
              "behavior": {"link": "target"}} for st in stacks]
     rows = probe(cmds)
@@ -446,11 +455,44 @@ def replay_walk_errors(items):
             continue
         errors = sorted((i.get("path") or "", i["depth"]) for i in row["items"] if i.get("error"))
         entries = {i["relative"] for i in row["items"] if not i.get("error")}
-        want_errors = [("b/a/loop", 2), ("b/d/dangling", 2)]
-        must = {"", "a", "a/x", "d"}
+        want_errors = sorted((l[0], 2) for l in ERR_LINKS)
+        must = {""} | set(ERR_DIRS) | {"%s/%s" % (d, n) for d, n in zip(ERR_DIRS, "fzagqbwm")}
+        dropped = {"c"} if any("filter" in l and "c" in l["filter"]["file"] for l in st) else set()
+        must = (must | {"c"}) - dropped
         if errors != want_errors or not must <= entries:
             out.append(({"walk-error-mismatch"},
-                        {"short": {"stack": st, "errors": errors, "expected_errors": want_errors,
-                                   "entries": sorted(entries),
-                                   "scenario": "real walk (ReadTarget) over a re-entrant link and a dangling link"}}))
+                        {"short": {"stack": st, "errors": errors[:4], "expected_errors": want_errors[:4],
+                                   "missing_entries": sorted(must - entries),
+                                   "scenario": "real walk (ReadTarget) over re-entrant and dangling links in 8 directories"}}))
+    return out
+
+
+LINK_DIRS = ["t0", "zz1", "m2", "b3"]
+
+
+def replay_link_discard(items):
+    """A symbolic link to a directory read as a file (default link behaviour) and discarded as a
+    tree must not cause any sibling to be skipped."""
+    from core import probe
+    tree = ["b/", "b/target/", "b/target/inner"]
+    links = []
+    siblings = []
+    for d, lname in zip(LINK_DIRS, ["lnk", "a-lnk", "zlnk", "0lnk"]):
+        tree += ["b/%s/" % d, "b/%s/f" % d, "b/%s/sub/" % d, "b/%s/sub/g" % d]
+        links.append(["b/%s/%s" % (d, lname), "{ROOT}/b/target"])
+        siblings += ["%s/f" % d, "%s/sub" % d, "%s/sub/g" % d]
+    link_rels = [l[0][2:] for l in links]
+    out = []
+    for stack in ([{"filter": {"tree": link_rels, "file": []}}],
+                  [{"not": {"pats": ["*/*lnk/**"], "mode": "any_text"}}]):
+        row = probe([{"op": "walk", "tree": tree, "links": links, "base": "b", "glob": None, "stack": stack}])[0]
+        if not row.get("ok"):
+            out.append(({"link-discard-mismatch"}, {"short": {"error": str(row)[:200]}}))
+            continue
+        got = {i["relative"] for i in row["items"] if not i.get("error")}
+        missing = sorted(set(siblings) - got)
+        if missing:
+            out.append(({"link-discard-mismatch"},
+                        {"short": {"stack": stack, "missing_siblings": missing,
+                                   "scenario": "real walk (ReadFile): links to a directory discarded as trees"}}))
     return out
